@@ -486,3 +486,142 @@ Qed.
 Theorem py_init_dirs_location_free root root' d :
   py_init_dirs root (root ++ d) = py_init_dirs root' (root' ++ d).
 Proof. unfold py_init_dirs. now rewrite !rel_from_root. Qed.
+
+(* ------------------------------------------------------------------------------------------ *)
+(** * CRecInsert: transitiveIncludesRec computes the same map whatever order Go picks at
+      every single `range module.ParsedIncludes` *)
+
+(** [chain R l a out]: the loop body [a = R(child, a)] run over [l] from [a] ends in [out] *)
+Fixpoint chain (R : module -> gomap module -> gomap module -> Prop)
+         (l : list (str * module)) (a out : gomap module) : Prop :=
+  match l with
+  | [] => out = a
+  | e :: l' => exists a1, R (snd e) a a1 /\ chain R l' a1 out
+  end.
+
+(** all executions of transitiveIncludesRec(m, acc): at every visit ANY permutation of
+    ParsedIncludes may be the iteration order (independently of every other visit) *)
+Fixpoint trec_any (fuel : nat) (m : module) (acc out : gomap module) : Prop :=
+  match fuel with
+  | O => False
+  | S f => exists order, Permutation (m_parsed m) order /\
+                         chain (trec_any f) order (store (m_file m) m acc) out
+  end.
+
+(** [sub fuel m x]: x is m or occurs below it *)
+Fixpoint sub (fuel : nat) (m x : module) : Prop :=
+  match fuel with
+  | O => False
+  | S f => x = m \/ exists e, In e (m_parsed m) /\ sub f (snd e) x
+  end.
+
+(** the tree fits in the fuel *)
+Fixpoint fits (fuel : nat) (m : module) : Prop :=
+  match fuel with
+  | O => False
+  | S f => forall e, In e (m_parsed m) -> fits f (snd e)
+  end.
+
+(** the executable [trec] is one of the executions (identity order) *)
+Lemma trec_is_an_execution fuel m acc : fits fuel m -> trec_any fuel m acc (trec fuel m acc).
+Proof.
+  revert m acc. induction fuel as [|f IH]; intros m acc Hfit; [destruct Hfit|].
+  cbn [trec_any trec]. exists (m_parsed m). split; [reflexivity|].
+  cbn [fits] in Hfit. revert Hfit. generalize (store (m_file m) m acc) as a.
+  induction (m_parsed m) as [|e l IHl]; intros a Hfit; cbn [chain fold_left]; [reflexivity|].
+  exists (trec f (snd e) a). split.
+  - apply IH. apply Hfit. now left.
+  - apply IHl. intros e' He'. apply Hfit. now right.
+Qed.
+
+Lemma sub_dec fuel m k :
+  (exists y, sub fuel m y /\ m_file y = k) \/ (forall y, sub fuel m y -> m_file y <> k).
+Proof.
+  revert m. induction fuel as [|f IH]; intros m; [right; intros y []|].
+  cbn [sub].
+  destruct (str_eqb (m_file m) k) eqn:E.
+  - apply str_eqb_eq in E. left. exists m. auto.
+  - apply str_eqb_neq in E.
+    assert (Hl : (exists e, In e (m_parsed m) /\ exists y, sub f (snd e) y /\ m_file y = k) \/
+                 (forall e, In e (m_parsed m) -> forall y, sub f (snd e) y -> m_file y <> k)).
+    { induction (m_parsed m) as [|e l IHl]; [right; intros e []|].
+      destruct (IH (snd e)) as [(y & Hy & Hk) | Hno].
+      - left. exists e. split; [now left|eauto].
+      - destruct IHl as [(e' & He' & Hy) | Hno'].
+        + left. exists e'. split; [now right|exact Hy].
+        + right. intros e' [E' | He']; [subst e'; exact Hno|exact (Hno' e' He')]. }
+    destruct Hl as [(e & He & y & Hy & Hk) | Hno].
+    + left. exists y. split; [right; eauto|exact Hk].
+    + right. intros y [-> | (e & He & Hy)]; [exact E|eauto].
+Qed.
+
+Section RecInsert.
+  Variable k : str.
+
+  Lemma trec_any_miss fuel : forall m acc out,
+    trec_any fuel m acc out -> (forall y, sub fuel m y -> m_file y <> k) -> lookup k out = lookup k acc.
+  Proof.
+    induction fuel as [|f IH]; intros m acc out Hrun Hno; [destruct Hrun|].
+    cbn [trec_any] in Hrun. destruct Hrun as (order & Hperm & Hch).
+    assert (Hroot : m_file m <> k) by (apply Hno; cbn [sub]; now left).
+    assert (Hkids : forall e, In e order -> forall y, sub f (snd e) y -> m_file y <> k).
+    { intros e He y Hy. apply Hno. cbn [sub]. right. exists e. split; [|exact Hy].
+      eapply Permutation_in; [symmetry; exact Hperm|exact He]. }
+    transitivity (lookup k (store (m_file m) m acc)); [|apply lookup_store_neq; congruence].
+    clear Hperm Hno. revert Hch Hkids. generalize (store (m_file m) m acc) as a.
+    induction order as [|e l IHl]; intros a Hch Hkids; cbn [chain] in Hch; [now subst|].
+    destruct Hch as (a1 & Hr & Hch).
+    rewrite (IHl a1 Hch); [|intros e' He'; apply Hkids; now right].
+    eapply IH; [exact Hr|]. apply Hkids. now left.
+  Qed.
+
+  Variable v : module.
+
+  Lemma trec_any_hit fuel : forall m acc out,
+    trec_any fuel m acc out ->
+    (forall y, sub fuel m y -> m_file y = k -> y = v) ->
+    (exists y, sub fuel m y /\ m_file y = k) \/ lookup k acc = Some v ->
+    lookup k out = Some v.
+  Proof.
+    induction fuel as [|f IH]; intros m acc out Hrun Hfun Hsrc; [destruct Hrun|].
+    cbn [trec_any] in Hrun. destruct Hrun as (order & Hperm & Hch).
+    assert (Hkids : forall e, In e order -> forall y, sub f (snd e) y -> m_file y = k -> y = v).
+    { intros e He y Hy. apply Hfun. cbn [sub]. right. exists e. split; [|exact Hy].
+      eapply Permutation_in; [symmetry; exact Hperm|exact He]. }
+    (* after the store at the root: either a child still holds a witness, or the map has it *)
+    assert (Hsrc1 : (exists e, In e order /\ exists y, sub f (snd e) y /\ m_file y = k) \/
+                    lookup k (store (m_file m) m acc) = Some v).
+    { destruct Hsrc as [(y & Hy & Hk) | Hacc].
+      - cbn [sub] in Hy. destruct Hy as [-> | (e & He & Hy)].
+        + right. rewrite <- Hk. rewrite lookup_store_eq. f_equal. apply Hfun; [cbn [sub]; now left|exact Hk].
+        + left. exists e. split; [eapply Permutation_in; [exact Hperm|exact He]|eauto].
+      - right. destruct (str_eqb (m_file m) k) eqn:E.
+        + apply str_eqb_eq in E. rewrite <- E, lookup_store_eq. f_equal. apply Hfun; [cbn [sub]; now left|exact E].
+        + apply str_eqb_neq in E. rewrite lookup_store_neq; [exact Hacc|congruence]. }
+    clear Hperm Hfun Hsrc. revert Hch Hkids Hsrc1. generalize (store (m_file m) m acc) as a.
+    induction order as [|e l IHl]; intros a Hch Hkids Hsrc; cbn [chain] in Hch.
+    - subst. destruct Hsrc as [(e & [] & _) | H]. exact H.
+    - destruct Hch as (a1 & Hr & Hch).
+      apply (IHl a1 Hch); [intros e' He'; apply Hkids; now right|].
+      destruct Hsrc as [(e0 & [<- | He0] & y & Hy & Hk) | Ha].
+      + right. eapply IH; [exact Hr|apply Hkids; now left|]. left. eauto.
+      + left. exists e0. split; [exact He0|eauto].
+      + right. eapply IH; [exact Hr|apply Hkids; now left|]. now right.
+  Qed.
+End RecInsert.
+
+(** distinct parsed files are distinct modules (parser.go caches by file path) *)
+Definition file_functional (fuel : nat) (m : module) : Prop :=
+  forall x y, sub fuel m x -> sub fuel m y -> m_file x = m_file y -> x = y.
+
+Theorem rec_insert_order_free fuel m acc out1 out2 :
+  file_functional fuel m ->
+  trec_any fuel m acc out1 -> trec_any fuel m acc out2 -> map_equiv out1 out2.
+Proof.
+  intros Hfun H1 H2 k.
+  destruct (sub_dec fuel m k) as [(y & Hy & Hk) | Hno].
+  - assert (Hf : forall y', sub fuel m y' -> m_file y' = k -> y' = y).
+    { intros y' Hy' Hk'. apply Hfun; auto. congruence. }
+    rewrite (trec_any_hit k y fuel m acc out1 H1 Hf), (trec_any_hit k y fuel m acc out2 H2 Hf); eauto.
+  - rewrite (trec_any_miss k fuel m acc out1 H1 Hno), (trec_any_miss k fuel m acc out2 H2 Hno). reflexivity.
+Qed.
